@@ -464,7 +464,7 @@ impl Gen {
                 } else if x < 66 {
                     format!("{} clone_from", tgt)
                 } else if x < 80 {
-                    format!("{} eq", tgt)
+                    format!("{} {}eq", tgt, if self.rng.chance(1, 5) { "self_" } else { "" })
                 } else if x < 84 {
                     format!("{} getmut {} {}", tgt, k, 500 + self.rng.below(100))
                 } else if x < 88 {
@@ -505,7 +505,7 @@ impl Gen {
                 } else if x < 89 {
                     format!("{} clear", tgt)
                 } else if x < 93 {
-                    format!("{} eq", tgt)
+                    format!("{} {}eq", tgt, if self.rng.chance(1, 5) { "self_" } else { "" })
                 } else if x < 95 {
                     format!("{} try_reserve {}", tgt, self.rng.below(60))
                 } else if x < 97 {
@@ -777,7 +777,7 @@ impl Gen {
         } else if x < 965 {
             format!("{} clone_from", tgt)
         } else if x < 985 {
-            format!("{} eq", tgt)
+            format!("{} {}eq", tgt, if self.rng.chance(1, 5) { "self_" } else { "" })
         } else {
             format!("{} nop", tgt)
         }
